@@ -1,5 +1,5 @@
 #!/usr/bin/env python3
-"""tools/c07_switch.py ia|untouched snapshot|repaired [commit]
+"""tools/c07_switch.py ia|untouched|bind snapshot|repaired [commit]
 
 Keeps the hand-maintained places of the C07 check consistent with the tree in /repo, one repair at a time:
 
@@ -11,6 +11,9 @@ Keeps the hand-maintained places of the C07 check consistent with the tree in /r
              not empty).  snapshot: expects UtDropped, finding variable-without-reaction.  repaired: expects UtZero, the
              defect moves to "fixed" (the case "no reaction acts on anything" is the separate finding
              no-equation-unit-return, pinned by the goldens, under either value).
+  bind       fixes/C07-empty-argument-list-strict.diff (source_tools.py::fn_to_sympy binds the parameters strictly also when
+             the argument list is EMPTY).  snapshot: expects BkStrictNonEmpty, finding defaulted-parameters-no-arguments.
+             repaired: expects BkStrict, the defect moves to "fixed".
 
 Then runs tools/mkmanifest.py (idempotent merge of known_findings.d / manifest_src.d)."""
 import json, re, subprocess, sys
@@ -19,7 +22,7 @@ from pathlib import Path
 V = Path(__file__).resolve().parent.parent
 which = sys.argv[1] if len(sys.argv) > 1 else ""
 mode = sys.argv[2] if len(sys.argv) > 2 else ""
-if which not in ("ia", "untouched") or mode not in ("snapshot", "repaired"):
+if which not in ("ia", "untouched", "bind") or mode not in ("snapshot", "repaired"):
     sys.exit(__doc__)
 commit = sys.argv[3] if len(sys.argv) > 3 else "<commit-to-be-filled>"
 
@@ -48,6 +51,17 @@ FIND = {
         "what_fails": "a variable without a reaction is dropped from the returned list instead of contributing a zero: 1 value for 2 variables (Rust: the [f64; n] return type no longer matches) (Coq: C07_variable_without_reaction_refuted). Proposed repair fixes/C07-untouched-variable-zero.diff (emit `d<x>dt = 0.0` for such variables when diff_eqs is not empty; goldens and the full suite unchanged; demo findings/c07_untouched_variable.py; the repaired generator is theorem C07_untouched_variable_zero): recorded until the lead applies it, then `tools/c07_switch.py untouched repaired <commit>`",
     },
 }
+FIND["bind"] = {
+    "property": "C07",
+    "id": "defaulted-parameters-no-arguments",
+    "call_site": "src/mxlpy/meta/source_tools.py fn_to_sympy (`if model_args is not None and len(model_args):` guards the strict zip of parameter names and arguments)",
+    "guard": "a function all of whose positional parameters have default values is called with NO argument -- a nested helper call `k()` inside a rate / derived / coefficient function, or a computed coefficient Derived(fn=f, args=[]) (Model rejects the arity of rates and derived quantities itself): the complement of the guard `acts <> []` of C07_call_no_parameter_left_behind / C07_call_value / C07_call_relying_on_default_refused while C07_expected_bind = BkStrictNonEmpty",
+    "witness": {"kind": "case", "lang": "py",
+                "desc": {"par": [[11, "4", None]], "var": [[12, "1"], [13, "2"]], "der": [],
+                         "rxn": [[20, 36, [12], [[12, ["stat", "-1"]], [13, ["stat", "1"]]]]], "free": []},
+                "points": PT},
+    "what_fails": "rate u_empty_helper(a) = a * k_two() with k_two(n0011=2.0) = n0011 * 3.0: fn_to_sympy skips the binding for the empty argument list, the helper's parameter stays in the expression as the bare symbol n0011 and generation succeeds in all four languages instead of raising; the emitted `3.0*n0011*n0012` reads the model's parameter n0011 = 4 (36 at n0012 = 3) where the model returns 18, and an undefined name when the model has no such component (Coq: C07_empty_call_leaks_refuted; C07_empty_call_raises for the repaired form). Proposed repair fixes/C07-empty-argument-list-strict.diff (`if model_args is not None:`; full suite unchanged 1378/761; demo findings/c07_empty_argument_list.py): recorded until the lead applies it, then `tools/c07_switch.py bind repaired <commit>`",
+}
 RESIDUAL = {
     "property": "C07",
     "id": "assigned-parameter-reads-free-parameter",
@@ -69,8 +83,15 @@ FIXED = {
                   "(fixes/C07-untouched-variable-zero.diff; demo findings/c07_untouched_variable.py; Coq: C07_untouched_variable_zero, the "
                   "unrepaired generator is regression theorem C07_variable_without_reaction_refuted; id variable-without-reaction)"),
 }
+FIXED["bind"] = (f"fixed: property=C07 {commit} fn_to_sympy skipped the binding of parameter names to arguments when a call passed NO argument, so a "
+                 "function all of whose parameters have defaults (a helper called as k(), a computed coefficient over no argument) was "
+                 "'translated' with its parameters left behind as bare symbols and generation emitted code reading a like-named model "
+                 "component (or an undefined name) instead of raising; the strict zip now also runs for an empty argument list "
+                 "(fixes/C07-empty-argument-list-strict.diff; demo findings/c07_empty_argument_list.py; Coq: C07_empty_call_raises, the "
+                 "unrepaired binding is regression theorem C07_empty_call_leaks_refuted; id defaulted-parameters-no-arguments)")
 LINE = {"ia": ("C07_expected_ia : ia_kind", {"snapshot": "IaDropped", "repaired": "IaFrozen"}),
-        "untouched": ("C07_expected_untouched : ut_kind", {"snapshot": "UtDropped", "repaired": "UtZero"})}
+        "untouched": ("C07_expected_untouched : ut_kind", {"snapshot": "UtDropped", "repaired": "UtZero"}),
+        "bind": ("C07_expected_bind : bind_kind", {"snapshot": "BkStrictNonEmpty", "repaired": "BkStrict"})}
 
 ef = V / "coq/codegen/ExpectedFacts.v"
 text = ef.read_text()
